@@ -57,7 +57,7 @@ def extra_isolation(chk):
             for step in range(60):
                 if rnd.random() < 0.35:
                     fx.misbehave(rnd.choice(["random_bytes", "truncated_packet", "huge_length", "corrupt_zlib", "garbage_payload",
-                                             "connect_only", "half_header"]), rnd)
+                                             "connect_only", "half_header", "poison_reply"]), rnd)
                 n = rnd.choice(names)
                 r = fx.call(n)
                 counts[n] += 1
@@ -68,6 +68,27 @@ def extra_isolation(chk):
                     break
             else:
                 chk.validated()
+            # more hostile answers than the server has workers (each names an exception that is not an Exception): the good
+            # clients are still served afterwards, and nobody who serves them has gone
+            import time as _time
+            for _ in range(7):
+                fx.misbehave("poison_reply", rnd)
+            _time.sleep(0.3)
+            for n in names:
+                r = fx.call(n)
+                counts[n] += 1
+                chk.evaluated()
+                if r[0] != "ok" or r[1] != counts[n]:
+                    chk.violation("%s:after-hostile-replies" % flavour, "C16 [%s server] after 7 clients that answered the server's own "
+                                  "request with SystemExit / KeyboardInterrupt / GeneratorExit, %s's call returned %r (its counter "
+                                  "says %d)" % (flavour, n, r, counts[n]), {"flavour": flavour, "scenario": "hostile-replies"})
+                    break
+            else:
+                chk.validated()
+            dead = [getattr(w, "name", "?") for w in getattr(fx.server, "workers", []) if not w.is_alive()]
+            if dead and not fx.closed:
+                chk.violation("%s:worker-lost" % flavour, "C16 [%s server] worker threads ended while the server is running (%s): "
+                              "each hostile client takes one away" % (flavour, dead), {"flavour": flavour, "scenario": "hostile-replies"})
             del lists, stolen
         finally:
             fx.teardown()
